@@ -72,6 +72,7 @@ type Interp struct {
 	initDone  map[*ssa.Package]bool
 	nondetN   int
 	tape      []TapeEntry
+	pathShared map[string]int
 }
 
 type intrinsic func(in *Interp, fr *frame, call *ssa.CallCommon, args []Value) Value
@@ -1903,6 +1904,10 @@ func (in *Interp) sharedWrite(c *Cell) {
 	}
 	name := in.describeGlobalCell(c)
 	in.ex.shareWrites[name]++
+	if in.pathShared == nil {
+		in.pathShared = map[string]int{}
+	}
+	in.pathShared[name]++
 }
 
 func (in *Interp) sharedWriteMap(m *MapObj) {
@@ -1910,6 +1915,10 @@ func (in *Interp) sharedWriteMap(m *MapObj) {
 		return
 	}
 	in.ex.shareWrites["map:"+typeString(m.kt)+"->"+typeString(m.vt)]++
+	if in.pathShared == nil {
+		in.pathShared = map[string]int{}
+	}
+	in.pathShared["map:"+typeString(m.kt)+"->"+typeString(m.vt)]++
 }
 
 func (in *Interp) describeGlobalCell(c *Cell) string {
